@@ -143,6 +143,8 @@ CONVERTERS = {          # name -> (factory, consumes the remaining segments): th
     # harness converter that may run user code (e.g. register a route) while a lookup is in flight
     'plug': (lambda: (lambda s: None if s.startswith('n') else 'P:' + s), False),
     # harness converter whose constructor can be made to fail once (compile-time fault); when it works:
+    # harness converter with a REQUIRED constructor argument: accepts multiples of `factor`
+    'mult': (lambda factor: (lambda s: (int(s) if re.fullmatch(r'-?[0-9]{1,17}', s) and int(s) % factor == 0 else None)), False),
     'flaky': (lambda tag='F': (lambda s: None if s.startswith('n') else tag + ':' + s), False),
 }
 # the check's alternative profile: 'int' and 'veto' replaced on that router, 'hex' added
